@@ -265,8 +265,10 @@ def r184(prog, chk):
     cfg = prog.cfg(ml)
     flags = [c for c in calls_named(ml, "makeLookupFlag")]
     need(len(flags) >= 2, f"cannot interpret {ml.short}")
-    dparam = "direction"
-    need(dparam in ml.params(), f"cannot interpret {ml.short}: no direction parameter")
+    # the direction variable, by role: the parameter compared with 'LTR' on the way to the lookup flags
+    cands = {l for c in flags for o, l, r in facts(prog, ml, c) if o in ("eq", "ne") and r == "'LTR'" and l in ml.params()}
+    need(len(cands) == 1, f"cannot interpret {ml.short}: no direction parameter")
+    dparam = next(iter(cands))
     seen = set()
     for c in flags:
         has_rtl = "RightToLeft" in T(c)
@@ -305,7 +307,7 @@ def r184(prog, chk):
                    message=f"anchor suffix {suf} sets direction {d.value.value!r}")
     mf = cw.methods["_makeCursiveFeature"]
     for c in calls_named(mf, "_makeCursiveLookup"):
-        dkw = A.kwarg(c, "direction")
+        dkw = A.kwarg(c, dparam)
         if dkw is None:
             continue
         gen = c.args[0] if c.args else None
